@@ -224,7 +224,7 @@ def check_testproblem_models(ctx, cuqi, rng, thorough):
             else:
                 lines.append(f"tph {dim} {q(endpoint)} {q(cf['max_time'])} {fmtok} {gmtok} {qv(x) if dim else '0'} {Wtok}")
             cases.append(rec)
-        outs = ctx.lean.drive(lines)
+        outs = yield lines
         for rec, out, line in zip(cases, outs, lines):
             name, key, desc, cf = rec["name"], rec["key"], rec["desc"], rec["cf"]
             ctx.case("testproblem-model", desc)
